@@ -147,12 +147,13 @@ func (pl *irqPlan) fireReused(cpu *z80.CPU, i int) {
 type c08Fault struct{}
 
 // twinRun applies the stop rule of the property on a Step-driven CPU.
-func twinRun(cpu *z80.CPU, maxSteps int, pl *irqPlan, lost *int, mem *mon.Mem, flagDisagrees *bool) (err error, steps int, ok bool) {
+func twinRun(cpu *z80.CPU, maxSteps int, pl *irqPlan, lost *int, mem *mon.Mem, flagDisagrees *bool, devHALT *bool) (err error, steps int, ok bool) {
 	cpu.HALT = false
 	for steps < maxSteps {
 		f0 := pl.Fired(cpu)
 		pc := cpu.PC
 		n0 := len(mem.Log)
+		reqBefore := cpu.Interrupt
 		cpu.Step()
 		steps++
 		// independent of the flag: did this Step execute a HALT opcode? (fetched 76 at PC,
@@ -176,6 +177,15 @@ func twinRun(cpu *z80.CPU, maxSteps int, pl *irqPlan, lost *int, mem *mon.Mem, f
 				break
 			}
 		}
+		// A mode-0 device may itself supply a HALT (or anything else): that instruction never
+		// appears on the memory bus, so the recogniser above cannot see it.  No verdict on the
+		// flag for a Step that accepted a mode-0 request; if that Step halted, remember it:
+		// PC then addresses the interrupted instruction, not a HALT opcode in memory.
+		acceptedIM0 := reqBefore != nil && cpu.Interrupt != reqBefore && reqBefore.Type != z80.NMIType && cpu.IM == 0
+		if acceptedIM0 {
+			executedHALT = cpu.HALT
+		}
+		*devHALT = acceptedIM0 && cpu.HALT
 		if executedHALT != cpu.HALT {
 			*flagDisagrees = true
 		}
@@ -353,6 +363,7 @@ func runC08(c *Ctx) {
 		bad := ""
 		lost := 0
 		flagDisagrees := false
+		devHALT := false // the twin's last Step halted on a HALT supplied by a mode-0 device
 		var lcalls, lbp, lhalt, lsteps int64
 		var lrerun, lfaults int64
 		accepted := false
@@ -385,7 +396,7 @@ func runC08(c *Ctx) {
 				f()
 				return false
 			}
-			ft := caught(func() { twinRun(twin, 400000, plan, &lost, memT, &flagDisagrees) })
+			ft := caught(func() { twinRun(twin, 400000, plan, &lost, memT, &flagDisagrees, &devHALT) })
 			fr := caught(func() { run.Run(context.Background()) })
 			// CPU.Memory is the host's field: re-attach (a mode-0 acceptance unwound by the
 			// panic leaves its overlay there on this tree)
@@ -406,7 +417,7 @@ func runC08(c *Ctx) {
 			preHalted := twin.HALT && call > 0 && twin.Interrupt == nil
 			preStates := twin.States
 			preFired := plan.Fired(twin)
-			tErr, tSteps, ok := twinRun(twin, 400000, plan, &lost, memT, &flagDisagrees)
+			tErr, tSteps, ok := twinRun(twin, 400000, plan, &lost, memT, &flagDisagrees, &devHALT)
 			if !ok {
 				return // pilot said it halts; with breakpoints it must too — but be safe
 			}
@@ -457,7 +468,7 @@ func runC08(c *Ctx) {
 				}
 			} else {
 				lhalt++
-				if !run.HALT || memR.Data[run.PC] != 0x76 {
+				if !run.HALT || (memR.Data[run.PC] != 0x76 && !devHALT) {
 					bad = "nil return but not halted on a HALT opcode"
 				}
 			}
